@@ -3,6 +3,11 @@
 # kind: rapid (default) | exhaustive | plain
 # quick/thorough: checks = total rapid cases over all shards; shards = processes; timeout = seconds per shard
 PARTS = {
+    "C08": [
+        {"test": "TestVfC08Backoff",
+         "quick": {"checks": 6000, "shards": 4, "timeout": 600},
+         "thorough": {"checks": 400000, "shards": 16, "timeout": 2400}},
+    ],
     "C07": [
         {"test": "TestVfC07Mesh",
          "quick": {"checks": 6000, "shards": 4, "timeout": 600},
@@ -52,6 +57,23 @@ PARTS = {
 LEVEL = {}  # default: exploration
 
 RULES = {
+    "C07": "direct-driven gossipsub node with manual heartbeats; rapid draws a parameter set accepted by validate() (D<=8, incl. the all-zero "
+           "bootstrapper set), optional scoring through the application score, direct peers, and a history (<= ~50 ops, <= 36 peers) of "
+           "arrivals/departures with direction and protocol version, remote subscribe/unsubscribe/GRAFT/PRUNE (also in bulk), joins "
+           "(subscribe or relay, incl. fan-out promotion), leaves, score changes, direct-peer changes, time advance, heartbeats; "
+           "oracle = validity predicate over pre/post snapshots of every heartbeat (no negative member, growth to min(D, pre+eligible), "
+           "cut to exactly D keeping the Dscore best and Dout outbound, additions only from eligible peers and beyond Dlo only through the "
+           "outbound quota / opportunistic rule, GRAFT/PRUNE queued for every own-initiative change) plus invariants after every step "
+           "(mesh members are connected peers, mesh exists iff joined, fan-out only for unjoined topics) and admission rules for remote "
+           "GRAFTs. Non-trivial: a heartbeat changed a mesh that had >= Dlo-1 members, or an admission was refused. Distinct = case JSON.",
+    "C08": "direct-driven gossipsub node, manual heartbeats, generated prune/unsubscribe back-offs, flood threshold, queue sizes 1-3 left "
+           "undrained (dropped + retried control) or drained; histories (<= ~60 ops) of joins, leaves, heartbeats (also 14-16 in a row "
+           "to meet the back-off sweep), received GRAFT/PRUNE (back-off absent, 0..300 s), departures and returns, time advances to the "
+           "k-th pending deadline +- delta; reference model noGraftBefore[topic,peer] (max-merge over the statement's events, never reads "
+           "the router's table); every GRAFT is judged at the instant it is handed to the outbound queue; a GRAFT received before the "
+           "deadline must be refused with PRUNE, penalised (1, or 2 inside the flood threshold of the last PRUNE) and extend the "
+           "back-off; every PRUNE to a v1.1+ peer states the prune / unsubscribe back-off. Non-trivial: a graft opportunity or GRAFT "
+           "receipt within a few seconds of a deadline, or a control message was dropped and retried. Distinct = case JSON.",
     "C17": "(a) message cache alone: rapid sequences of put / get / get-for-peer / gossip-ids / shift (<= 60 ops, gossip <= history <= 8) "
            "against a sliding-window model (retrievable for HistoryLength shifts, advertised for HistoryGossip, per-peer transmission "
            "counts); non-trivial = a query hits a message exactly at a window edge. (b) see part list. Distinct = distinct case JSON.",
@@ -88,6 +110,11 @@ RULES = {
 }
 
 ASSUMPTIONS = {
+    "C07": ["scores are read from the router's scorer at heartbeat time and treated as an input (C10 checks the scorer itself)",
+            "back-off entries are an input too (C08 checks them); expired-but-unswept entries make a candidate optional, not mandatory",
+            "negative degrees and OpportunisticGraftTicks = 0 are outside the domain (no documented meaning)"],
+    "C08": ["SEND_RPC trace events give the instant an RPC is handed to the outbound queue (C19 checks those events against the queues)",
+            "peer scoring is enabled with all weights zero so behaviour penalties are counted without changing any score"],
     "C17": ["message IDs are put into the cache once (the seen cache guarantees that inside its window); HistoryLength >= 1"],
     "C02": ["operations are kept half a second off the sweep instants so no outcome depends on the order of an operation and a sweep in one instant"],
     "C20": ["interleavings are those the Go scheduler produces plus one forced overlap of the first store reads; GOMAXPROCS varied across shards"],
@@ -104,6 +131,19 @@ ASSUMPTIONS = {
 HOOK_COMMITS = ["407c3ed"]
 
 META = {
+    "C07": {
+        "text": "Stateful property-based testing of the real router on a stub host: tens to hundreds of thousands of generated histories, each "
+                "heartbeat judged by a validity predicate that is independent of the random peer selection; finds off-by-ones in degree "
+                "handling, missing candidate filters, missing GRAFT/PRUNE emission and stale members within the generated bounds.",
+        "note": "Trusts the stub host, synctest, rapid; comm.go and libp2p are bypassed (C01/C05 cover them on the simulated network).",
+        "technique": "stateful property-based testing (rapid) on a direct-driven node with snapshot validity predicate",
+    },
+    "C08": {
+        "text": "Stateful property-based testing against an independent deadline model, with time steps aimed at both sides of every "
+                "deadline and full-queue retries; finds early GRAFTs from any graft site, lost refresh/penalty, wrong stated back-off.",
+        "note": "Trusts the tracer's SEND_RPC timing, the stub host, synctest; one open known finding (flood-window placement) is excused by key.",
+        "technique": "stateful property-based testing (rapid) with reference deadline model under a virtual clock",
+    },
     "C17": {
         "text": "Model-based property testing of the message cache windows and (b-part) of the gossip bounds on a direct-driven router; "
                 "finds window off-by-ones, wrong counters and bound violations reachable by the generated histories; no proof of absence.",
